@@ -1,3 +1,14 @@
+use crate::Error;
+
+/// Returns an error for an object identifier that can't be DER encoded (the writer would panic).
+pub(crate) fn ensure_encodable(oid: &[u64]) -> Result<(), Error> {
+	match oid {
+		[0 | 1, second, ..] if *second < 40 => Ok(()),
+		[2, second, ..] if *second < u64::MAX - 80 => Ok(()),
+		_ => Err(Error::InvalidOid),
+	}
+}
+
 /// pkcs-9-at-extensionRequest in [RFC 2985](https://www.rfc-editor.org/rfc/rfc2985#appendix-A)
 pub(crate) const PKCS_9_AT_EXTENSION_REQUEST: &[u64] = &[1, 2, 840, 113549, 1, 9, 14];
 
